@@ -186,7 +186,8 @@ func opVersionToSpan(typ tokType, op string, lo *Version) (span, error) {
 
 	case tokLess:
 		// Special horrible cases.
-		if lo.all(wildcard) || lo.all(0) {
+		if lo.all(wildcard) || lo.all(0) && !lo.IsPrerelease() {
+			// Nothing is below 0.0.0, but 0.0.0-alpha has prereleases below it.
 			return span{rank: empty}, nil
 		}
 		for i, val := range hi.num {
